@@ -30,8 +30,9 @@ func text(t string) string {
 
 // Vector is one decoded MC_Gap state.
 type Vector struct {
-	Node  *e1.Node
-	Edits []Edit
+	Node   *e1.Node
+	Edits  []Edit
+	Spaced bool // the base is rendered with a blank between every pair of tokens (BaseMode "spaced")
 }
 
 func Decode(st core.State) Vector {
@@ -70,6 +71,9 @@ func applyEdits(src string, first int, edits []Edit) (string, bool) {
 // block, with the gap edits applied at the boundaries counted from the "=" token.
 func (v Vector) Sources() []string {
 	x := e1.Render(v.Node, e1.Layout{})
+	if v.Spaced {
+		x = e1.Render(v.Node, e1.Layout{Mode: 4})
+	}
 	if strings.Contains(x, "\n") {
 		return nil
 	}
